@@ -9,7 +9,7 @@ CONSTANTS
   RateMax = 100
   PosMax = 50
   Tier = "mc"
-INVARIANTS TypeOK ClockOK LaunchOK NoNan MotorLimit RateIntegratorBound ZIntegratorBound
+INVARIANTS TypeOK ClockOK LaunchOK NoNan Airborne MotorLimit RateIntegratorBound ZIntegratorBound
 INVARIANTS AttitudeSettled YawSettled RateSettled PositionSettled VerdictSound MCPhase
 PROPERTIES StaysSettled StaysAttSettled
 CHECK_DEADLOCK FALSE
